@@ -103,15 +103,18 @@ def run(tier, replay):
     def small(cfg):
         return cfg, run_tlc("MC_Routing.tla", cfg, D, workers=1, timeout=600, work_id="c04", heap="1g")
 
-    cfgs = ["MC_Routing_dev_%s.cfg" % d for d in DEVS] + ["MC_Routing_wit_%s.cfg" % w for w in WITNESSES]
-    with concurrent.futures.ThreadPoolExecutor(max_workers=4) as ex:
+    # the witness configs repeat, on the MC space, the vacuity guard that the generated vectors carry (classes
+    # computed by TLC, below): thorough tier only
+    wits = WITNESSES if thorough else []
+    cfgs = ["MC_Routing_dev_%s.cfg" % d for d in DEVS] + ["MC_Routing_wit_%s.cfg" % w for w in wits]
+    with concurrent.futures.ThreadPoolExecutor(max_workers=5) as ex:
         results = dict(ex.map(small, cfgs))
     for d in DEVS:
         r = results["MC_Routing_dev_%s.cfg" % d]
         ctx.add_tlc("sensitivity: Dev={%s} must violate AlgoCorrect" % d, r)
         if r.violation != "invariant" or r.violated_name != "AlgoCorrect":
             raise vlib.ToolError("model lost sensitivity: Dev={%s} no longer violates AlgoCorrect" % d)
-    for w in WITNESSES:
+    for w in wits:
         r = results["MC_Routing_wit_%s.cfg" % w]
         ctx.add_tlc("witness: %s must be violated (the case exists in the explored space)" % w, r)
         if r.violation != "invariant":
